@@ -34,6 +34,7 @@ from __future__ import annotations
 
 import asyncio
 import math
+import os
 import itertools
 import random
 
@@ -209,6 +210,9 @@ def simplify(case: dict):  # noqa: ANN201
 
 # ------------------------------------------------------------------------------------------------ overlay
 _OV: list = []
+
+
+TRACE_ALL = bool(os.environ.get("C13_TRACE"))       # debugging aid: full packet trace in the violation message
 
 
 def _wall_time() -> float:
@@ -603,7 +607,7 @@ def execute(case: dict) -> dict:  # noqa: C901, PLR0912, PLR0915
             await node.stop()
 
     # -------------------------------------------------------------------------------------------- oracle
-    def trace(names: set, limit: int = 14) -> str:
+    def trace(names: set, limit: int = int(os.environ.get("C13_TRACE", "14"))) -> str:
         t = topo_box[0]
         lines = []
         for pid in sorted(sent):
@@ -645,6 +649,21 @@ def execute(case: dict) -> dict:  # noqa: C901, PLR0912, PLR0915
                     preqs.setdefault(pkt.cause, []).append((pkt, pl))
             except Exception as e:  # noqa: BLE001
                 world.probe("undecodable_from_B:" + type(e).__name__)
+        # what nodes other than B handed out (a NATed third peer introduces the address it sees, i.e. the WAN side)
+        foreign: dict = {}        # receiver -> [(delivery time, {addresses handed out by a node other than B})]
+        for pid in sorted(sent):
+            pkt = sent[pid]
+            if pkt.src_node in ("B", None) or len(pkt.data) < 23 or pkt.data[22] not in RESP_IDS or pid not in delivered:
+                continue
+            try:
+                cls = IntroductionResponsePayload if pkt.data[22] == 245 else NewIntroductionResponsePayload
+                _, _, pl = dec._ez_unpack_auth(cls, pkt.data)  # noqa: SLF001
+            except Exception:  # noqa: BLE001, S112
+                continue
+            recv, when = delivered[pid]
+            got = {tuple(pl.lan_introduction_address), tuple(pl.wan_introduction_address)} - {ZERO}
+            if got:
+                foreign.setdefault(recv, []).append((when, got))
         handed: dict = {}         # receiver -> [(delivery time, {addresses B handed out})]
         for pkt, lan_i, wan_i in intros:
             if pkt.id in delivered:
@@ -754,6 +773,14 @@ def execute(case: dict) -> dict:  # noqa: C901, PLR0912, PLR0915
                     reqs = [q for q, lan in ri + ir if not lan and q.data[22] in REQ_IDS]
                     by_b = [q for q in reqs if any(when <= q.t and tuple(q.dst) in addrs
                                                    for when, addrs in handed.get(q.src_node, ()))]
+                    # B's hand-out to a same-NAT requester names the WAN address next to the LAN one and the requester is to
+                    # use the LAN one; when a third peer handed the sender that very WAN address (without B's LAN address)
+                    # before the request left, the request follows that introduction, not B's
+                    by_other = [q for q in by_b if any(when <= q.t and tuple(q.dst) in addrs
+                                                       and not ({t.lan(r_name), t.lan(i_name)} & addrs)
+                                                       for when, addrs in foreign.get(q.src_node, ()))]
+                    if by_b and len(by_other) == len(by_b):
+                        by_b = []
                     # a pair that had already exchanged signed messages through the NAT (address from a NATed third peer)
                     # BEFORE B introduced them keeps using the address it knows: not a connection made by B's introduction
                     first_contact = min((q.t for q, _lan in ri + ir), default=None)
@@ -767,7 +794,7 @@ def execute(case: dict) -> dict:  # noqa: C901, PLR0912, PLR0915
                                   f"{r_name} {t.lan(r_name)} and {i_name} {t.lan(i_name)} share NAT "
                                   f"{t.nat(r_name).wan_ip} ({t.kind[r_name]}), B introduced lan={lan_i} wan={wan_i} and "
                                   f"they became peers, but the introduction requests/responses that connected them did "
-                                  f"not travel over LAN addresses. trace: {trace({r_name, i_name})}")
+                                  f"not travel over LAN addresses. trace: {trace(set(t.nodes) if TRACE_ALL else {r_name, i_name})}")
                     else:
                         world.probe("same_nat_pair_connected_by_foreign_introduction")
             elif place == "different" and t.kind[i_name] in ("addr", "port") and punched(t, r_name, i_name):
